@@ -52,6 +52,8 @@ pub struct Job {
     pub width: u32,
     /// refused output is signalled with Ok(0) instead of Err
     pub ok0: bool,
+    /// guard-page placement for tape/context blocks during subject runs (0 off, 1 right, 2 left)
+    pub guard: u8,
 }
 
 #[derive(Clone, Debug)]
@@ -137,6 +139,7 @@ fn mk_case(cfg: &JobCfg, job: &Job, spec: &Spec, env: &product::ConcreteEnv, not
         no_output: spec.no_output,
         note,
         profile: cfg.profile.clone(),
+        guard: job.guard,
     }
 }
 
@@ -232,7 +235,15 @@ fn run_job_w<const B: u32>(job: &Job, specs: &[Spec], cfg: &JobCfg) -> JobOut {
             }
             engine::with(|c| c.ops = 0);
             engine::LAST_PANIC.with(|p| *p.borrow_mut() = None);
+            if job.guard != 0 {
+                // what is about to run, for the fault handler: the witness fixes the whole path
+                let w0 = engine::with(|c| c.wit.clone());
+                let env0 = concretise(&w0, ref_reads.max(8));
+                crate::guard::set_case(&mk_case(cfg, job, spec, &env0, "guard-page fault during symbolic execution".into()).to_json().to_string());
+                crate::guard::set_mode(job.guard);
+            }
             let res = catch_unwind(AssertUnwindSafe(|| run_sub::<B>(&**exec, spec.mode, spec.no_input, spec.no_output)));
+            crate::guard::set_mode(0);
             let end = match res {
                 Ok(o) => SubEnd::Out(o),
                 Err(payload) => match payload.downcast::<Abort>() {
@@ -400,7 +411,9 @@ pub fn run_jobs(jobs: &[Job], specs_for: &(dyn Fn(&Job) -> Vec<Spec> + Sync), cf
     std::thread::scope(|s| {
         for _ in 0..threads {
             let b = std::thread::Builder::new().stack_size(1 << 30);
-            b.spawn_scoped(s, || loop {
+            b.spawn_scoped(s, || {
+                crate::guard::init_thread();
+                loop {
                 let i = next.fetch_add(1, Ordering::SeqCst);
                 if i >= jobs.len() {
                     break;
@@ -414,7 +427,7 @@ pub fn run_jobs(jobs: &[Job], specs_for: &(dyn Fn(&Job) -> Vec<Spec> + Sync), cf
                 let specs = specs_for(&jobs[i]);
                 let out = run_job(&jobs[i], &specs, cfg);
                 results.lock().unwrap().push(out);
-            })
+            }})
             .unwrap();
         }
     });
